@@ -623,6 +623,8 @@ def cases(tier, seed):
         add("ufokern2", "%d" % r, n=6 if T else 3)
     for r in range(reps * 2):
         add("layers", "%d" % r, n=12)
+    for r in range(reps * 4):
+        add("sessions", "%d" % r, n=12 if T else 8)
     from vmon.gen.c19_gen import NAME_KINDS
     for k in NAME_KINDS:
         for r in range(reps * 2):
